@@ -14,6 +14,7 @@ import (
 	"os"
 	"path/filepath"
 	"strings"
+	"time"
 
 	"github.com/kelindar/column/commit"
 )
@@ -603,6 +604,13 @@ var kindsReduced = []ckind{
 	{ckBytes, true, 1, 1, "mrgB1=1"}, {ckBytes, true, 2, 5, "mrgB2>5"},
 }
 
+// mid alphabet: 12 kinds x 8 moves = 96 symbols (96^3 = 884 736 sequences)
+var kindsMid = []ckind{
+	{ckDel, false, 0, 0, "del"}, {ckIns, false, 0, 0, "ins"}, {ckTrue, false, 0, 0, "true"}, {ckFix2, false, 2, 0, "put2"}, {ckFix4, true, 4, 4, "mrg4"},
+	{ckFix8, false, 8, 0, "put8"}, {ckFix8, true, 8, 8, "mrg8"}, {ckBytes, false, 0, 0, "putB0"}, {ckBytes, false, 200, 0, "putB200"},
+	{ckBytes, true, 1, 1, "mrgB1=1"}, {ckBytes, true, 1, 3, "mrgB1>3"}, {ckBytes, true, 3, 1, "mrgB3>1"},
+}
+
 type cmove struct {
 	rel  int64
 	abs  int64 // used when rel == math.MinInt64
@@ -615,6 +623,8 @@ var movesFull = []cmove{
 	{0, 0, "same"}, {1, 0, "+1"}, {2, 0, "+2"}, {127, 0, "+127"}, {128, 0, "+128"}, {16383, 0, "+16383"}, {16384, 0, "+16384"},
 	{1 << 21, 0, "+2^21"}, {-1, 0, "-1"}, {-129, 0, "-129"}, {-16384, 0, "-16384"}, {absMove, 5, "=5"}, {absMove, 3*16384 + 7, "=3*16K+7"}, {absMove, 1 << 28, "=2^28"},
 }
+
+var movesMid = []cmove{{0, 0, "same"}, {1, 0, "+1"}, {127, 0, "+127"}, {128, 0, "+128"}, {16384, 0, "+16384"}, {1 << 21, 0, "+2^21"}, {-1, 0, "-1"}, {absMove, 5, "=5"}}
 
 var movesReduced = []cmove{{0, 0, "same"}, {1, 0, "+1"}, {200, 0, "+200"}, {16384, 0, "+16384"}, {-3, 0, "-3"}}
 
@@ -718,7 +728,7 @@ func codecSpaces(tier string) []codecSpace {
 	add("full^2", kindsFull, movesFull, 2)
 	if tier == "thorough" {
 		add("reduced^4", kindsReduced, movesReduced, 4)
-		add("full^3", kindsFull, movesFull, 3)
+		add("mid^3", kindsMid, movesMid, 3)
 	}
 	return sp
 }
@@ -736,7 +746,7 @@ func codecPlan(tier string) []Plan {
 		n += s.cases
 	}
 	n += codecRandomCases(tier)
-	return []Plan{{Cases: n, Workers: 16, MaxProcs: 1}}
+	return []Plan{{Cases: n, Workers: 16, MaxProcs: 1, Timeout: 90 * time.Minute}}
 }
 
 type codecReplay struct {
@@ -750,15 +760,22 @@ type codecReplay struct {
 
 func codecRun(w *W, phase, idx int) {
 	spaces := codecSpaces(w.Tier)
+	// the seeded random cases come first, so that a truncated run has still seen them
+	orig := idx
+	if nr := codecRandomCases(w.Tier); idx < nr {
+		codecRandomCase(w, idx, idx)
+		return
+	} else {
+		idx -= nr
+	}
 	base := 0
 	for _, sp := range spaces {
 		if idx < base+sp.cases {
-			codecEnumCase(w, idx, sp, uint64(idx-base))
+			codecEnumCase(w, orig, sp, uint64(idx-base))
 			return
 		}
 		base += sp.cases
 	}
-	codecRandomCase(w, idx, idx-base)
 }
 
 func trimOps(ops []cop) []cop {
